@@ -46,6 +46,7 @@ type summary struct {
 	Samples   [][]string        `json:"samples"`
 	Strategy  map[string]int    `json:"strategies"`
 	Digests   map[string]uint64 `json:"digests,omitempty"`
+	ODigests  map[string]uint64 `json:"odigests,omitempty"`
 	Tainted   bool              `json:"tainted"`
 	Sites     int               `json:"sites"`
 	Race      bool              `json:"race"`
@@ -164,6 +165,7 @@ func main() {
 		Strategy: map[string]int{}, Sites: simrt.NumSites(), Race: simrt.RaceEnabled}
 	if *digests {
 		sum.Digests = map[string]uint64{}
+		sum.ODigests = map[string]uint64{}
 	}
 	sigs := map[uint64]struct{}{}
 	cases := map[uint64]struct{}{}
@@ -210,6 +212,7 @@ func main() {
 		}
 		if sum.Digests != nil {
 			sum.Digests[fmt.Sprint(i)] = res.Stats.Digest
+			sum.ODigests[fmt.Sprint(i)] = res.Stats.ODigest
 		}
 		if len(sum.Samples) < *nsamples && len(res.Sample) > 0 {
 			sum.Samples = append(sum.Samples, res.Sample)
